@@ -764,8 +764,12 @@ fn run_queries<G: Graph<usize>>(g: &G, n: usize, queries: &[Query], repeats: &[u
         Some(sm) => sm.clone(),
         None => (0..n).collect(),
     };
-    let mut uni = UnidirectionalDijkstra::new();
-    let mut o2m = OneToManyDijkstra::new();
+    // `Default` must give the same object as `new` (every second case uses it)
+    let (mut uni, mut o2m) = if queries.len() % 2 == 0 {
+        (UnidirectionalDijkstra::default(), OneToManyDijkstra::default())
+    } else {
+        (UnidirectionalDijkstra::new(), OneToManyDijkstra::new())
+    };
     if !pre.queries.is_empty() {
         let pg = StaticGraph::new(pre.edges.iter().map(|e| InputEdge::new(e.0, e.1, e.2)).collect::<Vec<InputEdge<usize>>>());
         for q in &pre.queries {
